@@ -62,6 +62,7 @@ Next ==
                   \cup C0203_Step(pre, ev, post)
                   \cup C02_Vv(pre, ev, post, vvh)
                   \cup C03_Rename(pre, ev, post)
+                  \cup C03_Fetched(pre, ev, post)
                   \cup C04_Step(pre, ev, post)
                   \cup C05_Step(pre, ev, post)
                   \cup C13_Step(pre, ev, post, ag2)
